@@ -393,7 +393,9 @@ FieldViol(d, obs, known) ==
                    ELSE {<<"C11", d.name, "value reported as absent">>, <<"C10", d.name, "value reported as absent">>}
               ELSE IF IsInt(obs[1]) /\ Close(obs[1], d.raw, d.P, d.Q) THEN {} ELSE {<<"C10", d.name, "value">>}
     ELSE \* "list"
-         IF Len(obs) # Len(d.items) THEN {<<"C14", d.name, "count">>}
+         \* a wrong number of list entries at a protocol-legal length: C14 (the count) and C04 (an entry's
+         \* values are not reported / fabricated)
+         IF Len(obs) # Len(d.items) THEN {<<"C14", d.name, "count">>, <<"C04", d.name, "count">>}
          ELSE IF obs = d.items THEN {} ELSE {<<"C04", d.name, "value">>}
 
 \* list fields at non-legal lengths: a non-empty prefix is acceptable
